@@ -116,3 +116,76 @@ Fixpoint join (ws : list text) : text :=
 (* characters of the first k words laid on one line (without the space that follows) *)
 Definition wlen (ws : list text) (k : nat) : nat := length (join (firstn k ws)).
 Definition fits_chars (fs w : Q) (n : nat) : Prop := (inject_Z (Z.of_nat n) * fs <= w)%Q.
+
+(* ---- the guard of the greedy theorem, as a decidable predicate on the input text *)
+(* the words of a text: the maximal runs between spaces (join (words_of t) = t for every t) *)
+Fixpoint words_of (t : text) : list text :=
+  match t with
+  | [] => [[]]
+  | c :: t' => if is_sp c then [] :: words_of t'
+               else match words_of t' with w :: r => (c :: w) :: r | [] => [[c]] end
+  end.
+(* ordinary text: non-empty words of letters separated by single spaces, no space at either end, no newline,
+   no soft hyphen *)
+Definition plain_text (t : text) : bool := forallb is_word (words_of t).
+
+(* the complementary guard of the refuted clauses: ordinary text; a wrapping white-space value; a positive font
+   size; an available width below Pango's 2^21 limit; and either words may not be broken (no break-all, no
+   overflow-wrap at a line start) or the first word fits (so that step 5 is not entered) *)
+Definition greedy_guard (st : style) (t : text) (mw : Q) (ils mini : bool) : bool :=
+  plain_text t && text_wrap (st_ws st) && negb (Qle_bool (st_fs st) 0) && negb (Qle_bool two21 mw) &&
+  (negb (can_break_inside st ils mini) ||
+   Qle_bool (inject_Z (Z.of_nat (wlen (words_of t) 1)) * st_fs st)%Q mw).
+(* ... for every line of the paragraph: every word fits, or words may not be broken *)
+Definition greedy_guard_all (st : style) (t : text) (mw : Q) (mini : bool) : bool :=
+  plain_text t && text_wrap (st_ws st) && negb (Qle_bool (st_fs st) 0) && negb (Qle_bool two21 mw) &&
+  (negb (can_break_inside st true mini) ||
+   forallb (fun w => Qle_bool (inject_Z (Z.of_nat (length w)) * st_fs st)%Q mw) (words_of t)).
+
+(* the greedy line made of the k first words: its text (preserved spaces hang at the end of the line under
+   pre-wrap), the white space skipped after it, what remains *)
+Definition line_of (collapse : bool) (ws : list text) (k : nat) : text :=
+  join (firstn k ws) ++ (if collapse || (k =? length ws)%nat then [] else [Sp]).
+Definition skipped_of (collapse : bool) (ws : list text) (k : nat) : text :=
+  if (k =? length ws)%nat then [] else if collapse then [Sp] else [].
+Definition rest_of (ws : list text) (k : nat) : text := join (skipn k ws).
+
+(* ---- all the lines of a text box: split_text_box called again from the resume point (inline.py), leading
+   collapsible spaces skipped before each call (skip_first_whitespace).  Each item is (line, white space skipped
+   after it).  None = an exception, no progress (resume_index = 0 is an assert in split_text_box) or not enough
+   fuel. *)
+Fixpoint lstrip (t : text) : text * text :=
+  match t with
+  | c :: t' => if is_sp c then let '(s, r) := lstrip t' in (c :: s, r) else ([], t)
+  | [] => ([], [])
+  end.
+Fixpoint split_lines (fuel : nat) (st : style) (t : text) (mw : Q) (mini : bool) : option (list (text * text)) :=
+  match fuel with
+  | O => None
+  | S f =>
+      match sfl_model st t (Some mw) true mini with
+      | Raise _ => None
+      | Out _ len res _ =>
+          match bytes_prefix t len, res with
+          | None, _ => None
+          | Some line, None =>
+              match bytes_suffix t len with Some tail => Some [(line, tail)] | None => None end
+          | Some line, Some r =>
+              match bytes_prefix t r, bytes_suffix t r with
+              | Some upto, Some rest0 =>
+                  if r <=? 0 then None
+                  else
+                    let between := skipn (length line) upto in
+                    let '(sp, rest) := if space_collapse (st_ws st) then lstrip rest0 else ([], rest0) in
+                    match rest with
+                    | [] => Some [(line, between ++ sp)]
+                    | _ :: _ => match split_lines f st rest mw mini with
+                                | Some ls => Some ((line, between ++ sp) :: ls)
+                                | None => None
+                                end
+                    end
+              | _, _ => None
+              end
+          end
+      end
+  end.
